@@ -45,7 +45,7 @@ CLAIMED = {
  "C17": dict(cat="model_checking", design="§4 C17",
    text="BOUNDED for the literal clauses, complete for the finite name tables; precedence/associativity NOT covered. Numeric literals: the real Parser::parse_numeric text is executed by CBMC on every string of the tokenizer's NUMERIC "
         "language up to 6 characters (8 thorough): a digit string is the Integer with its base-10 value regardless of leading zeros; a literal with a decimal point or an exponent "
-        "is read as a float; Parser::parse_implicit_mul on every IMPLICIT_MUL token of that length: the numeric factor is the longest prefix that reads as a number, the other factor the identifier named by the rest. Function names: the eight name tables of parser.cpp (init_parser_single_arg_functions and the statics of Parser::functionify), extracted row by row on every run, against the specification contracts/C17/name_spec.h: every conventional name is present and is mapped to the corresponding library function (arcsech -> asech, ln -> log, GreaterThan -> Ge ...), an unlisted name maps to the same-named function; every row visited (complete). The And/Or/Nand/Nor and Xor/Xnor branches of functionify (bounded, <= 3 operands): operands type-tested, connective applied to the set (resp. the ordered sequence) of all operands. Precedence/associativity (bison LALR tables) and the other branches of the params.size() dispatch inside functionify are NOT covered.",
+        "is read as a float; Parser::parse_implicit_mul on every IMPLICIT_MUL token of that length: the numeric factor is the longest prefix that reads as a number, the other factor the identifier named by the rest. Function names: the eight name tables of parser.cpp (init_parser_single_arg_functions and the statics of Parser::functionify), extracted row by row on every run, against the specification contracts/C17/name_spec.h: every conventional name is present and is mapped to the corresponding library function (arcsech -> asech, ln -> log, GreaterThan -> Ge ...), an unlisted name maps to the same-named function; every row visited (complete). The And/Or/Nand/Nor and Xor/Xnor branches of functionify (bounded, <= 3 operands): operands type-tested, connective applied to the set (resp. the ordered sequence) of all operands. The argument-count dispatch of functionify (loop-free, operand counts 0..4, every found/not-found combination of the tables): the table of the written arity answers, exactly one row is called with the operands in order. Precedence/associativity (bison LALR tables) are NOT covered.",
    note="Trusted: std::string/strtol (ISO C)/errno/fast_float stubs; the NUMERIC token language transcribed from tokenizer.re; std::map initializer-list/find contract (first entry of a key wins); CBMC.",
    tech="contract-based verification with CBMC on mechanically extracted function text: pre/postcondition harness with libc/std::string stubs; bounded model checking (string length) as stand-in for the literal clauses; exhaustive table contract (every row of the extracted name tables against a specification table) for the function-name clause"),
  "C20": dict(cat="proof", design="§4 C20",
